@@ -16,6 +16,8 @@ def timerFacts : Suite where
       | none => ((), "bad-op")
     | ["facts-case", "processMessage", "onSchedulerFunc"] => ((), MV.Model.TimerFacts.schedulerFuncCase)
     | ["facts-task", "close"] => ((), MV.Model.TimerFacts.taskClose)
+    | ["facts-task", "Next"] => ((), MV.Model.TimerFacts.taskNext)
+    | ["facts-task", "caller"] => ((), MV.Model.TimerFacts.taskCaller)
     | ["facts-chrono", f] => match MV.Model.TimerFacts.chronoTable.lookup f with
       | some s => ((), s)
       | none => ((), "bad-op")
